@@ -38,6 +38,16 @@ type e2eCase struct {
 	pos    int
 	delays []time.Duration // free-running speculative mode
 	key    string          // the value bound to the statement: identifies the case at the nodes
+
+	// controlled speculative mode: which execution picked which host (hosts are distinct)
+	controlled bool
+	hostThread map[int]int
+	inflight   map[int]bool // thread -> its attempt is outstanding at a node
+
+	// fault scenarios
+	connloss       *outSpec // the scripted "connection lost" outcome of this case, if any
+	heldTimeouts   int      // requests the nodes deliberately left unanswered
+	driverTimeouts int      // ErrTimeoutNoResponse seen by the driver
 }
 
 type e2e struct {
@@ -49,6 +59,16 @@ type e2e struct {
 	hosts map[string]*gocql.HostInfo // by connect address
 	cur   *e2eCase
 	ghost *gocql.HostInfo // a host the session has no pool for
+	downs chan int        // HostDown / HostUp notifications (host id)
+	ups   chan int
+}
+
+func hostNum(h *gocql.HostInfo) int {
+	a := h.ConnectAddress().To4()
+	if a != nil && a[0] == 10 && a[1] == 0 && a[2] == 0 {
+		return int(a[3])
+	}
+	return -1
 }
 
 // ---- the host selection policy (public interface) ---------------------------------------------
@@ -58,9 +78,19 @@ func (e *e2e) AddHost(h *gocql.HostInfo) {
 	e.hosts[h.ConnectAddress().String()] = h
 	e.mu.Unlock()
 }
-func (e *e2e) RemoveHost(*gocql.HostInfo)                {}
-func (e *e2e) HostUp(*gocql.HostInfo)                    {}
-func (e *e2e) HostDown(*gocql.HostInfo)                  {}
+func (e *e2e) RemoveHost(*gocql.HostInfo) {}
+func (e *e2e) HostUp(h *gocql.HostInfo) {
+	select {
+	case e.ups <- hostNum(h):
+	default:
+	}
+}
+func (e *e2e) HostDown(h *gocql.HostInfo) {
+	select {
+	case e.downs <- hostNum(h):
+	default:
+	}
+}
 func (e *e2e) SetPartitioner(string)                     {}
 func (e *e2e) KeyspaceChanged(gocql.KeyspaceUpdateEvent) {}
 func (e *e2e) Init(*gocql.Session)                       {}
@@ -75,6 +105,24 @@ type e2eSelected struct {
 func (s *e2eSelected) Info() *gocql.HostInfo { return s.info }
 func (s *e2eSelected) Mark(err error) {
 	if s.c != nil {
+		if err == gocql.ErrTimeoutNoResponse {
+			s.c.rc.mu.Lock()
+			s.c.driverTimeouts++
+			s.c.rc.mu.Unlock()
+		}
+		if s.c.controlled && (err == nil) {
+			// Mark(nil) of an attempt the node has not answered: the connection gave it up on ctx.Done()
+			rc := s.c.rc
+			rc.mu.Lock()
+			t := rc.threads[gid()]
+			if s.c.inflight[t] && !rc.closed {
+				s.c.inflight[t] = false
+				cn := mkOut(0, 0, 0, 0)
+				rc.labels = append(rc.labels, lbl{kind: 1, t: t, o: cn, still: true})
+				rc.traces[t] = append(rc.traces[t], ev{kind: evDone, host: s.id, o: cn, still: true})
+			}
+			rc.mu.Unlock()
+		}
 		s.c.rc.onMark(s.id, err)
 	}
 }
@@ -83,6 +131,20 @@ func (e *e2e) Pick(q gocql.ExecutableQuery) gocql.NextHost {
 	e.mu.Lock()
 	c := e.cur
 	e.mu.Unlock()
+	if v, ok := q.Context().Value(ctxKey{}).(int); ok && v < 0 {
+		// probe: only host -v
+		e.mu.Lock()
+		h := e.hosts[fmt.Sprintf("10.0.0.%d", -v)]
+		e.mu.Unlock()
+		done := false
+		return func() gocql.SelectedHost {
+			if done || h == nil {
+				return nil
+			}
+			done = true
+			return &e2eSelected{info: h}
+		}
+	}
 	if c == nil || q.Context().Value(ctxKey{}) == nil {
 		// the session's own traffic: every known host in address order
 		e.mu.Lock()
@@ -110,6 +172,11 @@ func (e *e2e) Pick(q gocql.ExecutableQuery) gocql.NextHost {
 		h := c.sc.hosts[c.pos]
 		c.pos++
 		c.rc.onPick(h.ID)
+		if c.controlled {
+			c.rc.mu.Lock()
+			c.hostThread[h.ID] = c.rc.threads[gid()]
+			c.rc.mu.Unlock()
+		}
 		sel := &e2eSelected{id: h.ID, c: c}
 		switch {
 		case h.InfoNil:
@@ -137,6 +204,10 @@ func (e *e2e) handle(id int, nd *node.Node) node.Handler {
 			return
 		}
 		rc := cs.rc
+		if cs.controlled {
+			e.handleControlled(cs, id, nd, c, req)
+			return
+		}
 		rc.mu.Lock()
 		out := rc.nextOutcomeLocked()
 		rc.started++
@@ -177,6 +248,17 @@ func (e *e2e) handle(id int, nd *node.Node) node.Handler {
 			cs.held = append(cs.held, c.Hold(req, node.Void{}))
 			e.mu.Unlock()
 			cs.cancel()
+		case o.kind == 6 && o.a == 0:
+			// request timeout: the answer never comes (released when the case is over)
+			e.mu.Lock()
+			cs.held = append(cs.held, c.Hold(req, node.Void{}))
+			e.mu.Unlock()
+			rc.mu.Lock()
+			cs.heldTimeouts++
+			rc.mu.Unlock()
+		case o.kind == 6 && o.a == 200:
+			// the connection is lost while the request is outstanding
+			c.Close()
 		case o.kind == 3:
 			c.Reply(req, node.Error{Code: node.ErrUnavailable, Message: tagMsg(o.tag), Consistency: node.Quorum, Required: 2, Alive: int32(o.a)})
 		case o.kind == 4:
@@ -196,6 +278,10 @@ var e2eOtherCodes = []int32{node.ErrOverloaded, node.ErrServer, node.ErrTruncate
 
 // errors the driver built from the nodes' answers -> the scripted outcome they came from
 func (cs *e2eCase) errSpec(err error) *outSpec {
+	if _, ok := err.(gocql.RequestError); !ok && cs.connloss != nil && err != gocql.ErrTimeoutNoResponse &&
+		err != context.Canceled && err != context.DeadlineExceeded && err != gocql.ErrNoConnections && err != gocql.ErrUnknownRetryType {
+		return cs.connloss
+	}
 	if re, ok := err.(gocql.RequestError); ok {
 		m := re.Message()
 		if strings.HasPrefix(m, "c13-tag-") {
@@ -224,8 +310,8 @@ func (cs *e2eCase) errSpec(err error) *outSpec {
 	return nil
 }
 
-func newE2E(h *harness) (*e2e, error) {
-	e := &e2e{h: h, hosts: map[string]*gocql.HostInfo{}}
+func newE2E(h *harness, timeout time.Duration) (*e2e, error) {
+	e := &e2e{h: h, hosts: map[string]*gocql.HostInfo{}, downs: make(chan int, 64), ups: make(chan int, 64)}
 	e.net = node.NewNet()
 	var contact []string
 	for i := 1; i <= e2eNodes; i++ {
@@ -240,9 +326,10 @@ func newE2E(h *harness) (*e2e, error) {
 	cfg := gocql.NewCluster(contact[0])
 	cfg.Dialer = e.net.Dialer()
 	cfg.ProtoVersion = 4
-	cfg.Timeout = 20 * time.Second
+	cfg.Timeout = timeout
 	cfg.ConnectTimeout = 20 * time.Second
 	cfg.NumConns = 1
+	cfg.ReconnectionPolicy = &gocql.ConstantReconnectionPolicy{MaxRetries: 1, Interval: 10 * time.Millisecond}
 	cfg.Keyspace = "demo"
 	cfg.Consistency = gocql.One
 	cfg.PoolConfig.HostSelectionPolicy = e
@@ -332,6 +419,11 @@ func (g *gen) e2eScript() *script {
 }
 
 func (e *e2e) run(sc *script, kind string) {
+	e.runCase(sc, kind)
+}
+
+// runCase returns false when the case had to be discarded (a request timed out that no node left unanswered)
+func (e *e2e) runCase(sc *script, kind string) bool {
 	rc := newRunCtx(sc, 0)
 	ctx, cancel := context.WithCancel(context.WithValue(context.Background(), ctxKey{}, 1))
 	defer cancel()
@@ -344,6 +436,11 @@ func (e *e2e) run(sc *script, kind string) {
 	}
 	if sc.dflt.o != nil {
 		cs.byTag[sc.dflt.o.tag] = sc.dflt.o
+	}
+	for _, sp := range cs.byTag {
+		if sp.kind == 6 && sp.a == 200 {
+			cs.connloss = sp
+		}
 	}
 	rc.errSpec = cs.errSpec
 	e.mu.Lock()
@@ -383,7 +480,15 @@ func (e *e2e) run(sc *script, kind string) {
 	for _, hd := range held {
 		hd.Release()
 	}
+	rc.mu.Lock()
+	spurious := cs.driverTimeouts != cs.heldTimeouts || (res.Err == gocql.ErrTimeoutNoResponse && cs.heldTimeouts == 0)
+	rc.mu.Unlock()
+	if spurious {
+		e.h.o.Count("end-to-end-discarded-spurious-timeout")
+		return false
+	}
 	e.h.evalSeq(sc, rc, res, pan, caller, kind)
+	return true
 }
 
 // runFree: an idempotent query with the driver's own SimpleSpeculativeExecution through the real
@@ -474,4 +579,135 @@ func (e *e2e) runFree(sc *script) {
 	if sc.pol.kind == 0 && total > runs {
 		o.Violate(-1, "once-without-policy", "", fmt.Sprintf("%d requests by %d executions without a retry policy", total, runs), in)
 	}
+}
+
+func errorMsg(o *outSpec) node.Message {
+	switch o.kind {
+	case 3:
+		return node.Error{Code: node.ErrUnavailable, Message: tagMsg(o.tag), Consistency: node.Quorum, Required: 2, Alive: int32(o.a)}
+	case 4:
+		return node.Error{Code: node.ErrWriteTimeout, Message: tagMsg(o.tag), Consistency: node.Quorum, Received: int32(o.b), BlockFor: 2, WriteType: writeTypes[o.a]}
+	case 5:
+		return node.Error{Code: node.ErrReadTimeout, Message: tagMsg(o.tag), Consistency: node.Quorum, Received: 1, BlockFor: 2, DataPresent: true}
+	}
+	return node.Error{Code: o.wire, Message: tagMsg(o.tag)}
+}
+
+// handleControlled: the request stays unanswered until the harness releases it with an outcome; the
+// release is the execution's next step in the schedule
+func (e *e2e) handleControlled(cs *e2eCase, id int, nd *node.Node, c *node.ServerConn, req *node.Request) {
+	rc := cs.rc
+	rc.mu.Lock()
+	if rc.closed {
+		rc.mu.Unlock()
+		c.Reply(req, node.Void{})
+		return
+	}
+	t := cs.hostThread[id]
+	rc.traces[t] = append(rc.traces[t], ev{kind: evExec, host: id, cons: int64(req.Execute.Params.Consistency)})
+	rc.started++
+	cs.inflight[t] = true
+	ch := make(chan release, 1)
+	rc.blocked[t] = ch
+	rc.blockGen[t]++
+	rc.cond.Broadcast()
+	rc.mu.Unlock()
+	rel := <-ch
+	rc.mu.Lock()
+	if !cs.inflight[t] || (rel.c.o != nil && rel.c.o.kind == 0) {
+		// given up by the driver already (context done), or released after the query was over
+		rc.mu.Unlock()
+		c.Reply(req, node.Void{})
+		return
+	}
+	cs.inflight[t] = false
+	rc.labels = append(rc.labels, lbl{kind: 1, t: t, o: rel.c.o, still: true})
+	rc.traces[t] = append(rc.traces[t], ev{kind: evDone, host: id, o: rel.c.o, still: true})
+	rc.mu.Unlock()
+	if rel.c.o == nil {
+		nd.Default(c, req)
+	} else {
+		c.Reply(req, errorMsg(rel.c.o))
+	}
+}
+
+// controlledScript: distinct hosts, enough usable ones for every execution's first attempt
+func (g *gen) controlledE2EScript() *script {
+	r := g.r
+	sc := g.e2eScript()
+	perm := []int{1, 2, 3, 4, 5}
+	for i := len(perm) - 1; i > 0; i-- {
+		j := r.Intn(i + 1)
+		perm[i], perm[j] = perm[j], perm[i]
+	}
+	sc.idem = true
+	sc.spk = int(r.Pick(1, 1, 2, 3))
+	sc.hosts = nil
+	for _, id := range perm {
+		sc.hosts = append(sc.hosts, gocql.VerifC13Host{ID: id})
+	}
+	if r.Chance(30) {
+		k := r.Intn(len(sc.hosts))
+		if r.Bool() {
+			sc.hosts[k].InfoNil = true
+		} else {
+			sc.hosts[k].NoPool = true
+		}
+	}
+	for i := range sc.outs {
+		if sc.outs[i].o != nil && sc.outs[i].o.kind == 0 {
+			sc.outs[i].o = nil
+		}
+	}
+	if sc.dflt.o != nil && sc.dflt.o.kind == 0 {
+		sc.dflt.o = nil
+	}
+	sc.a0 = int(r.Pick(0, 0, 1))
+	return sc
+}
+
+// runControlled: a speculative execution through the real session on a schedule the harness controls
+// by holding the nodes' answers; emitted as a CSpec case like the shim-driven ones
+func (e *e2e) runControlled(sc *script, sched []int, cancelAt int, kind string) {
+	launch := func(ctx context.Context, rc *runCtx, sp gocql.SpeculativeExecutionPolicy) gocql.VerifC13Result {
+		e.mu.Lock()
+		e.seq++
+		cs := &e2eCase{sc: sc, rc: rc, byTag: map[int64]*outSpec{}, key: fmt.Sprintf("case-%d", e.seq), controlled: true,
+			hostThread: map[int]int{}, inflight: map[int]bool{}}
+		e.mu.Unlock()
+		for _, c := range sc.outs {
+			if c.o != nil {
+				cs.byTag[c.o.tag] = c.o
+			}
+		}
+		if sc.dflt.o != nil {
+			cs.byTag[sc.dflt.o.tag] = sc.dflt.o
+		}
+		rc.errSpec = cs.errSpec
+		e.mu.Lock()
+		e.cur = cs
+		any := e.hosts["10.0.0.1"]
+		e.mu.Unlock()
+		q := e.sess.Query(e2eStmt, cs.key).WithContext(ctx).Idempotent(true).Consistency(gocql.Consistency(sc.cons0))
+		q.RetryPolicy(rc.retryPolicy())
+		q.SetSpeculativeExecutionPolicy(sp)
+		if sc.a0 != 0 {
+			q.AddAttempts(sc.a0, any)
+		}
+		var res gocql.VerifC13Result
+		it := q.Iter()
+		res.Host = -1
+		if hh := it.Host(); hh != nil {
+			res.Host = hostNum(hh)
+		}
+		res.Err = it.Close()
+		res.Attempts = q.Attempts()
+		res.Consistency = q.GetConsistency()
+		res.AttemptsNow = q.Attempts
+		return res
+	}
+	e.h.runControlledWith(sc, sched, true, cancelAt, kind, launch)
+	e.mu.Lock()
+	e.cur = nil
+	e.mu.Unlock()
 }
